@@ -163,59 +163,54 @@ def chunksF : Nat → List Nat → List (List Nat)
 /-- `chunks(data)` with the default size 30 -/
 def chunks30 (d : List Nat) : List (List Nat) := chunksF d.length d
 
-/-- the `for chunk in chunks(region.data)` loop; `ext`,`address` are the loop variables -/
+/-- the `for chunk in chunks(region.data)` loop; `ext`,`address` are the loop variables.
+    (`do` blocks, not `match`, so that no equation lemma has to evaluate `pack16 …`.) -/
 def saveChunks (ext address : Nat) : List (List Nat) → Except Err (List HexLine)
   | [] => .ok []
   | chunk :: rest =>
-    if address ≥ 65536 then
-      match pack16 ((ext + 65536) / 65536), saveChunks (ext + 65536) (address - 65536 + chunk.length) rest with
-      | .ok e, .ok ls => .ok (⟨0, 4, e⟩ :: ⟨address - 65536, 0, chunk⟩ :: ls)
-      | .error e, _ => .error e
-      | _, .error e => .error e
-    else
-      match saveChunks ext (address + chunk.length) rest with
-      | .ok ls => .ok (⟨address, 0, chunk⟩ :: ls)
-      | .error e => .error e
+    if address ≥ 65536 then do
+      let e ← pack16 ((ext + 65536) / 65536)
+      let ls ← saveChunks (ext + 65536) (address - 65536 + chunk.length) rest
+      pure (⟨0, 4, e⟩ :: ⟨address - 65536, 0, chunk⟩ :: ls)
+    else do
+      let ls ← saveChunks ext (address + chunk.length) rest
+      pure (⟨address, 0, chunk⟩ :: ls)
 
-def saveRegion (r : Region) : Except Err (List HexLine) :=
-  let ext := r.1 % 4294967296 / 65536 * 65536             -- region.address & 0xFFFF0000
-  match pack16 (ext / 65536), saveChunks ext (r.1 - ext) (chunks30 r.2) with
-  | .ok e, .ok ls => .ok (⟨0, 4, e⟩ :: ls)
-  | .error e, _ => .error e
-  | _, .error e => .error e
+/-- `region.address & 0xFFFF0000` -/
+def extOf (addr : Nat) : Nat := addr % 4294967296 / 65536 * 65536
+
+def saveRegion (r : Region) : Except Err (List HexLine) := do
+  let e ← pack16 (extOf r.1 / 65536)
+  let ls ← saveChunks (extOf r.1) (r.1 - extOf r.1) (chunks30 r.2)
+  pure (⟨0, 4, e⟩ :: ls)
 
 def saveRegions : List Region → Except Err (List HexLine)
   | [] => .ok []
-  | r :: rs =>
-    match saveRegion r, saveRegions rs with
-    | .ok a, .ok b => .ok (a ++ b)
-    | .error e, _ => .error e
-    | _, .error e => .error e
+  | r :: rs => do
+    let a ← saveRegion r
+    let b ← saveRegions rs
+    pure (a ++ b)
 
 /-- the records `save` writes: regions, start linear address record (when a start
     address is set), end-of-file record -/
-def saveRecords (h : HexFile) : Except Err (List HexLine) :=
-  match saveRegions h.regions with
-  | .error e => .error e
-  | .ok body =>
-    if h.start = 0 then .ok (body ++ [⟨0, 1, []⟩])
-    else match pack32 h.start with
-      | .ok d => .ok (body ++ [⟨0, 5, d⟩, ⟨0, 1, []⟩])
-      | .error e => .error e
+def saveRecords (h : HexFile) : Except Err (List HexLine) := do
+  let body ← saveRegions h.regions
+  if h.start = 0 then pure (body ++ [⟨0, 1, []⟩])
+  else do
+    let d ← pack32 h.start
+    pure (body ++ [⟨0, 5, d⟩, ⟨0, 1, []⟩])
 
 def linesOf : List HexLine → Except Err (List (List Char))
   | [] => .ok []
-  | hl :: rest =>
-    match toLine hl, linesOf rest with
-    | .ok l, .ok ls => .ok (l :: ls)
-    | .error e, _ => .error e
-    | _, .error e => .error e
+  | hl :: rest => do
+    let l ← toLine hl
+    let ls ← linesOf rest
+    pure (l :: ls)
 
 /-- `HexFile.save`: the lines printed to the file -/
-def save (h : HexFile) : Except Err (List (List Char)) :=
-  match saveRecords h with
-  | .ok recs => linesOf recs
-  | .error e => .error e
+def save (h : HexFile) : Except Err (List (List Char)) := do
+  let recs ← saveRecords h
+  linesOf recs
 
 /-! ### HexFile.load -/
 
@@ -314,10 +309,9 @@ def build (regs : List Region) : List Region → Except Err (List Region)
     | .error e => .error e
 
 /-- old `save`: no start address record -/
-def save (h : HexFile) : Except Err (List (List Char)) :=
-  match saveRegions h.regions with
-  | .ok body => linesOf (body ++ [⟨0, 1, []⟩])
-  | .error e => .error e
+def save (h : HexFile) : Except Err (List (List Char)) := do
+  let body ← saveRegions h.regions
+  linesOf (body ++ [⟨0, 1, []⟩])
 
 end Legacy
 
